@@ -51,6 +51,8 @@ def run(P, rep, tier):
     rep.attempt(r3b_find_files_filter, P, rep, ctx)
     rep.attempt(r4_close_discard, P, rep, ctx)
     rep.attempt(r5_codec, P, rep, ctx)
+    rep.attempt(r6_file_list_owners, P, rep, ctx)
+    rep.attempt(r7_discard_is_the_users_call, P, rep, ctx)
     # open mode 'r' never writes: commit / discard / create_patch refuse read-only records and act only on a really
     # pending newest container (typestate rules shared with C02, rule ids C02.R3)
     from . import c02
@@ -374,6 +376,70 @@ def contract(mode: str, kind: str, found: bool, modes: List[str]) -> List[List[s
     if not rw:
         return [base]
     return [base + ["[has_writable=True]"], base + ["[has_writable=False]", "create_patch()"]]
+
+
+FILE_LIST_SHRINKERS = {
+    "ih5.record.IH5Record._delete_latest_container": "discarding the writable container (the only one that may be dropped)",
+    "ih5.record.IH5Record.close": "closing the record",
+    "ih5.record.IH5Record._create": "fresh record object",
+    "ih5.record.IH5Record._open": "fresh record object (the list is built once, from the given paths)",
+    "ih5.record.IH5Record.__init__": "fresh record object",
+    "ih5.record.IH5Record.__new__": "fresh record object",
+}
+
+
+def r6_file_list_owners(P, rep, ctx, rule="C03.R6"):
+    """The view of a record is the overlay of ALL its containers.  Opening builds the container list once from the files it was
+    given; afterwards a container leaves the list only when the writable one is discarded or the record is closed.  Nothing
+    else drops, pops or re-slices it (a record opened read-only shows an uncommitted patch as it is -- recognisably uncommitted --,
+    it does not hide it)."""
+    n = 0
+    for fi in P.functions.values():
+        if not fi.module.name.startswith("ih5."):
+            continue
+        top = fi
+        while getattr(top, "parent", None) is not None:
+            top = top.parent
+        for x in walk_local(fi.node):
+            bad = None
+            if isinstance(x, ast.Call) and isinstance(x.func, ast.Attribute) and x.func.attr in ("pop", "remove", "clear") and norm(x.func.value).endswith(".__files__"):
+                bad = x
+            if isinstance(x, ast.Delete) and any(isinstance(t, ast.Subscript) and norm(t.value).endswith(".__files__") for t in x.targets):
+                bad = x
+            if isinstance(x, (ast.Assign, ast.AugAssign)) and any(isinstance(t, ast.Attribute) and t.attr == "__files__" for t in (x.targets if isinstance(x, ast.Assign) else [x.target])):
+                v = x.value
+                fresh = isinstance(v, (ast.List, ast.ListComp)) and not any(isinstance(y, ast.Attribute) and y.attr == "__files__" for y in ast.walk(v))
+                if not fresh:
+                    bad = x
+                else:
+                    n += 1
+                    rep.check(top.qual in FILE_LIST_SHRINKERS, rule, fi.qual, f"container list (re)built in {top.name}", fi.loc(x), construct=f"{top.name}: {norm(x)[:60]}", message=f"{fi.qual} replaces the container list of a record (`{norm(x)[:70]}`): only construction and close() may")
+                    continue
+            if bad is None:
+                continue
+            n += 1
+            allowed = top.qual in ("ih5.record.IH5Record._delete_latest_container", "ih5.record.IH5Record.close", "ih5.record.IH5Record.discard_patch")
+            rep.check(allowed, rule, fi.qual, f"a container leaves the list only on discard / close ({top.name})", fi.loc(bad), construct=f"{top.name}: {norm(bad)[:60]}",
+                      message=f"{fi.qual} removes a container from the record's list (`{norm(bad)[:70]}`): the view no longer contains what that container holds -- e.g. a record reopened read-only silently loses the not yet committed changes that reopening in r+ would show")
+    rep.check(n >= 3, rule, "ih5.record", "container list mutation sites found", P.module("ih5.record").relpath, construct="__files__ mutation sites", message="the container list is no longer built / shrunk where the rule expects it: nothing to check")
+
+
+def r7_discard_is_the_users_call(P, rep, ctx, rule="C03.R7"):
+    """discard_patch throws away everything written since the last commit.  It is offered to the user; nothing in the library
+    decides on its own to discard (leaving a `with` block by an exception closes -- and thereby commits -- like h5py.File
+    closes: what was written before the exception stays written, as on a plain HDF5 file)."""
+    n = 0
+    for fi in P.functions.values():
+        for c in local_calls(fi.node):
+            if isinstance(c.func, ast.Attribute) and c.func.attr in ("discard_patch", "_delete_latest_container"):
+                top = fi
+                while getattr(top, "parent", None) is not None:
+                    top = top.parent
+                n += 1
+                ok = c.func.attr == "_delete_latest_container" and top.qual == "ih5.record.IH5Record.discard_patch"
+                rep.check(ok, rule, fi.qual, f"{c.func.attr} is reached from discard_patch only", fi.loc(c), construct=f"{top.name}: {norm(c)[:60]}",
+                          message=f"{fi.qual} calls `{norm(c)[:60]}`: the library discards the user's uncommitted changes on its own (successful operations of the session are rolled back where the same session on a plain HDF5 file keeps them)")
+    rep.check(n >= 1, rule, "ih5.record", "discard sites found", P.module("ih5.record").relpath, construct="discard call sites", message="discard_patch no longer goes through _delete_latest_container: nothing to check")
 
 
 def r2_mode_dispatch(P, rep, ctx):
